@@ -21,3 +21,5 @@ def install_common(reg):
             return v.sym_copy(I)
         raise Unsupported(f'copy.copy of {v!r}')
     reg.ext_('copy.copy', copy_copy)
+
+    reg.func_('moPepGen/__init__.py', 'get_logger', lambda I, a, k: I.logger)
